@@ -557,7 +557,11 @@ class E2ECase:
                 w.net.on_send = hook
             if fault and fault["type"] == "rp_inject":
                 w.net.on_send = None
-            sender.overlay.send_data(scirc.hop.address, scirc.circuit_id, ("0.0.0.0", 0), ("0.0.0.0", 0), payload)
+            # the destination field of an e2e data cell is the sender's to fill in: zero, the virtual end point the library's
+            # own e2e callback hands out for the circuit, or anything else
+            edest = {0: ("0.0.0.0", 0), 1: (socket.inet_ntoa(struct.pack("!I", scirc.circuit_id)), 1024),
+                     2: ("5.6.7.8", 9)}[c.get("edest", 0)]
+            sender.overlay.send_data(scirc.hop.address, scirc.circuit_id, edest, ("0.0.0.0", 0), payload)
             await asyncio.sleep(0.5)
             w.net.on_send = None
             if fault and fault["type"] == "rp_inject":
@@ -638,7 +642,7 @@ class E2ECase:
                 m = try_decrypt(r, m, FORWARD)
                 if m is None:
                     self.fail("I2", "layer", f"first link does not carry the layer of hop {k + 1}")
-            expected = b"\x01" + ref_addr(("0.0.0.0", 0)) + ref_addr(("0.0.0.0", 0)) + payload
+            expected = b"\x01" + ref_addr(edest) + ref_addr(("0.0.0.0", 0)) + payload
             if m == expected or (len(payload) >= 8 and payload[:8] in m):
                 self.fail("I2", "e2e_layer", "after removing the circuit layers the cell is plaintext: the end-to-end layer is "
                                              "missing")
@@ -883,6 +887,7 @@ def _e2e_strategy():
                       st.fixed_dictionaries({"type": st.just("flip"), "link": st.integers(0, 5),
                                              "byte": st.integers(22, 400), "mask": st.integers(1, 255)}))
     return st.fixed_dictionaries({"seed": st.integers(0, 10_000), "hops": st.integers(1, 2),
+                                  "edest": st.sampled_from([0, 0, 1, 2]),
                                   "kind": st.sampled_from(["e2e_d2s", "e2e_s2d"]),
                                   "size": st.sampled_from([2, 8, 23, 64, 300, 1000]) | st.integers(2, 1200),
                                   "shape": st.sampled_from(["bt", "ipv8", "ipv8_v1", "tunnel"]), "fault": fault})
